@@ -606,7 +606,13 @@ def run(ctx, replay=None):
     terms, meta = [], []
     tot_boundary = tot_dec = 0
     for spec, events in specs:
-        res = run_sequence(ctx, spec, events)
+        try:
+            with U.watchdog(120):
+                res = run_sequence(ctx, spec, events)
+        except U.Hang as e:
+            ctx.violation("property", "HyperbandScheduler did not answer: %s" % e, case=dict(kind="sequence", spec=spec, events=events),
+                          signature=dict(scheduler="HyperbandScheduler", type=spec["type"], defect="hang"))
+            continue
         ctx.count(("sequence", spec), nontrivial=res["n_nontrivial"] > 0)
         ctx.h("seq_type", spec["type"])
         ctx.h("seq_brackets", "%d%s" % (res["num_brackets"], "pb" if spec.get("per_bracket") else ""))
